@@ -331,7 +331,12 @@ func storeRefValue(addr ssa.Value) ssa.Value {
 			return storeRefValue(x)
 		}
 		return nil
-	case *ssa.Alloc, *ssa.Global:
+	case *ssa.Alloc:
+		if allocEscapes(a) {
+			return a // a heap cell of its own, addressed by the allocation's reference
+		}
+		return nil
+	case *ssa.Global:
 		return nil
 	}
 	return addr
